@@ -427,5 +427,5 @@ func TestC11(t *testing.T) {
 	c.Rule("liveargs: a Go function (recording MakeFunc host reached by name / variable / map member / deferred, or a pointer-receiver method with interface{} parameters; fixed or variadic, plain or with a spread last argument) called with 2-4 argument expressions over 1-2 places (element of a bound or script-made typed slice, element of a bound []interface{}, field of a bound *S, field of an element of a bound []S, dereferenced bound pointer; controls: variable, script list element, map entry): an argument reads a place, calls a script function or a Go function that overwrites a place and returns a number (or a list that is spread), or is a literal; parameter types are the value's own type, interface{}, or a converting type; reference: one left-to-right walk over the list; non-trivial = some place is read and overwritten by a later argument (80% by construction)")
 	h.Run(c, "liveargs", c.N(7000, 30000), genLiveCase, liveOracle)
 	c.Rule("goseq: a script of 2-4 calls of 1-4 recording MakeFunc hosts (signatures, arguments and reference of `calls`: 0-3 fixed parameters, variadic tail six times in ten, spread half of the time, counts always fitting), every call plain (30%) or launched with go (70%), through the routes name / variable / map member / parenthesised; a later call uses the host of an earlier one six times in ten (same function, new arguments); between two calls sometimes an unrelated statement (a Go call, a variadic Go call, a variadic or fixed script function call, an assignment); calls whose own reference is not 'succeeds' are left out of the script (counted); judged: no error, and per host the invocations received (waited for, 20 s before 'never') are exactly the planned ones, one per call, in any order; non-trivial = at least two judged calls")
-	h.Run(c, "goseq", c.N(3000, 14000), genGoSeqCase, goSeqOracle)
+	h.Run(c, "goseq", c.N(6000, 30000), genGoSeqCase, goSeqOracle)
 }
